@@ -205,6 +205,7 @@ type scope struct {
 	list     bool // parent is a list entry
 	inChoice bool
 	underCh  bool     // some ancestor (or the parent itself) is a choice/case: leaves here are no leafref targets (ygot cannot resolve them)
+	ocTop    bool     // top level of an OpenConfig-style module: under compression the children's structs have bare CamelCase names
 	kinfo    *keyInfo // non-nil in the name space of a list entry (shared wherever names is shared): the keys drawn so far
 	inAug    bool     // statements are added inside an augment (no mandatory nodes: RFC 7950 7.17)
 }
